@@ -30,6 +30,27 @@ fn rational_length(rng: &mut Rng, tier: Tier, n: usize) -> Vec<Rat> {
 /// class 0: rational lengths everywhere (exact engine decides); class 1: arbitrary rationals
 fn gen_pair(rng: &mut Rng, tier: Tier, n: usize) -> Case {
     let mut c = Case::new();
+    if n >= 2 && rng.chance(1, 8) {
+        // lengths 1 + 2^-k and 1 - 2^-k: "nearly unit" is not unit (still rational lengths, class 0)
+        c.class = 0;
+        let k = rng.range(16, 30) as u32;
+        let unit = |rng: &mut Rng| -> Vec<Rat> {
+            match n {
+                2 => gen::unit_vec2(rng, Tier::Quick).to_vec(),
+                3 => gen::unit_vec3(rng, Tier::Quick).to_vec(),
+                _ => gen::unit_quat(rng, Tier::Quick).to_vec(),
+            }
+        };
+        let scale = |v: Vec<Rat>, num: i64| -> Vec<Rat> { v.iter().map(|x| Rat::new(x.n * num, x.d << k)).collect() };
+        let u = scale(unit(rng), (1i64 << k) + 1);
+        let v = scale(unit(rng), (1i64 << k) - 1);
+        if v.iter().any(|x| !x.is_zero()) {
+            c.push_r(&u).push_r(&v);
+            c.nontrivial = true;
+            c.push_r(&[gen::nz_rat(rng, tier)]);
+            return c;
+        }
+    }
     if rng.chance(1, 2) {
         c.class = 0;
         // v = u + w so that |u - v| is rational as well; the property needs non-zero lengths
@@ -264,3 +285,118 @@ pub const ASSUME: &[&str] = &[
     "enclosure arithmetic as in C06; acos is evaluated on the argument clipped to [-1,1] (the property is stated over the reals)",
     "parallelism is tested by cross ratios x_i y_j = x_j y_i, direction by the sign of the dot product",
 ];
+
+
+// ---------------------------------------------------------------- native f64 / f32: accuracy where a field cannot tell
+
+/// Two formulas that agree over a field can differ wildly in floating point
+/// (catastrophic cancellation).  These monitors run the real f64/f32 code on
+/// inputs where the exact answer is known by construction and flag only errors
+/// orders of magnitude above rounding: points far from the origin but close
+/// together (integer grid: the exact squared distance is an integer), exactly
+/// opposite / nearly opposite 2-D vectors, and nearly unit vectors.
+pub fn native(cfg: &cgv_core::fw::RunCfg, extra: &mut cgv_core::fw::Extra) {
+    use cgmath::{Rad, Vector2 as V2};
+    use serde_json::json;
+    let n = if cfg.tier == Tier::Quick { 4000 } else { 300_000 };
+    let mut evals = 0u64;
+    let mut seen = std::collections::HashSet::new();
+    let mut worst = [0f64; 4];
+    let mut fail: Option<(String, String, serde_json::Value)> = None;
+    for i in 0..n {
+        if fail.is_some() {
+            break;
+        }
+        let mut rng = Rng::for_case(cfg.seed, "c11_native", i);
+        evals += 1;
+        // (1) integer grid far from the origin: exact squared distance
+        let base = [rng.range(-400_000_000, 400_000_000), rng.range(-400_000_000, 400_000_000), rng.range(-400_000_000, 400_000_000)];
+        let off = [rng.range(-2000, 2000), rng.range(-2000, 2000), rng.range(-2000, 2000)];
+        let exact2: i64 = off.iter().map(|x| x * x).sum();
+        seen.insert((base[0], off[0]));
+        let r = cgv_core::fw::catch(|| {
+            let p = Point3::new(base[0] as f64, base[1] as f64, base[2] as f64);
+            let q = Point3::new((base[0] + off[0]) as f64, (base[1] + off[1]) as f64, (base[2] + off[2]) as f64);
+            let (u, v) = (p.to_vec(), q.to_vec());
+            let e3 = exact2 as f64;
+            let e2 = (off[0] * off[0] + off[1] * off[1]) as f64;
+            let e1 = (off[0] * off[0]) as f64;
+            let rel = |got: f64, exp: f64| if exp == 0.0 { got.abs() } else { ((got - exp) / exp).abs() };
+            let mut w = 0f64;
+            w = w.max(rel(p.distance2(q), e3)).max(rel(q.distance2(p), e3)).max(rel(u.distance2(v), e3));
+            w = w.max(rel(p.distance(q), e3.sqrt())).max(rel(u.distance(v), e3.sqrt())).max(rel((u - v).magnitude(), e3.sqrt()));
+            let (p2a, q2a) = (Point2::new(p.x, p.y), Point2::new(q.x, q.y));
+            w = w.max(rel(p2a.distance2(q2a), e2)).max(rel(p2a.to_vec().distance2(q2a.to_vec()), e2));
+            let (p1a, q1a) = (Point1::new(p.x), Point1::new(q.x));
+            w = w.max(rel(p1a.distance2(q1a), e1));
+            let qa = Quaternion::new(p.x, p.y, p.z, 7.0);
+            let qb = Quaternion::new(q.x, q.y, q.z, 7.0);
+            w = w.max(rel(qa.distance2(qb), e3));
+            // f32: coordinates around 1000, offsets of halves
+            let pf = Point3::new(base[0] as f32 % 4096.0, base[1] as f32 % 4096.0, base[2] as f32 % 4096.0);
+            let of = [(off[0] % 8) as f32 * 0.5, (off[1] % 8) as f32 * 0.5, (off[2] % 8) as f32 * 0.5];
+            let qf = Point3::new(pf.x + of[0], pf.y + of[1], pf.z + of[2]);
+            let ef = of[0] * of[0] + of[1] * of[1] + of[2] * of[2];
+            let wf = if ef == 0.0 { pf.distance2(qf).abs() as f64 } else { ((pf.distance2(qf) - ef) / ef).abs() as f64 };
+            (w, wf)
+        });
+        match r {
+            Err(p) => fail = Some(("native_distance".into(), format!("unexpected panic: {p}"), json!({"index": i}))),
+            Ok((w, wf)) => {
+                worst[0] = worst[0].max(w);
+                worst[1] = worst[1].max(wf);
+                if !(w <= 1e-9) {
+                    fail = Some(("native_distance".into(), format!("f64 distance/distance2 of points {base:?} and +{off:?}: relative error {w:e} (exact value {exact2}); tolerance 1e-9"), json!({"base": base, "offset": off})));
+                } else if !(wf <= 1e-4) {
+                    fail = Some(("native_distance".into(), format!("f32 distance2 of nearby points far from the origin: relative error {wf:e}; tolerance 1e-4"), json!({"base": base, "offset": off})));
+                }
+            }
+        }
+        // (2) 2-D signed angle: exactly opposite / equal direction, and close to opposite
+        let u = V2::new(rng.uniform(-4.0, 4.0), rng.uniform(-4.0, 4.0));
+        if u.magnitude2() > 0.01 {
+            let k = 2f64.powi(rng.range(-3, 3) as i32);
+            let a_opp = u.angle(-u * k).0;
+            let a_same = u.angle(u * k).0;
+            let delta = 10f64.powf(rng.uniform(-9.0, -2.0)) * if rng.bool() { 1.0 } else { -1.0 };
+            let th = std::f64::consts::PI - delta.abs();
+            let th = if delta < 0.0 { -th } else { th };
+            let v = V2::new(th.cos() * u.x - th.sin() * u.y, th.sin() * u.x + th.cos() * u.y) * k;
+            let a_near = u.angle(v).0;
+            let e = (a_near - th).abs();
+            worst[2] = worst[2].max(e);
+            let pi = std::f64::consts::PI;
+            if !((a_opp.abs() - pi).abs() <= 1e-12) {
+                fail = Some(("native_angle2d".into(), format!("angle({u:?}, -{k} u) = {a_opp:e}, expected +-pi"), json!({"u": [u.x, u.y], "k": k})));
+            } else if !(a_same.abs() <= 1e-12) {
+                fail = Some(("native_angle2d".into(), format!("angle({u:?}, {k} u) = {a_same:e}, expected 0"), json!({"u": [u.x, u.y], "k": k})));
+            } else if !(e <= 1e-11) {
+                fail = Some(("native_angle2d".into(), format!("angle(u, Rot({th}) u) is off by {e:e} rad (tolerance 1e-11) {} rad away from opposite", delta.abs()), json!({"u": [u.x, u.y], "theta": th})));
+            }
+            let _ = Rad(0.0f64);
+        }
+        // (3) nearly unit quaternions / vectors: normalize really normalizes
+        let d = 10f64.powf(rng.uniform(-12.0, -3.0)) * if rng.bool() { 1.0 } else { -1.0 };
+        let q = Quaternion::new(rng.uniform(-1.0, 1.0), rng.uniform(-1.0, 1.0), rng.uniform(-1.0, 1.0), rng.uniform(-1.0, 1.0));
+        if q.magnitude2() > 0.01 {
+            let q = q.normalize() * (1.0 + d);
+            let e = (q.normalize().magnitude() - 1.0).abs().max((q.normalize_to(2.0).magnitude() - 2.0).abs());
+            let v3n = (q.v.normalize().magnitude() - 1.0).abs();
+            worst[3] = worst[3].max(e).max(v3n);
+            if !(e <= 1e-13 && v3n <= 1e-13) {
+                fail = Some(("native_normalize".into(), format!("normalize of a quaternion/vector of length 1{d:+e} has length off by {:e} (tolerance 1e-13)", e.max(v3n)), json!({"d": d})));
+            }
+        }
+    }
+    if let Some(f) = fail {
+        extra.violations.push(f);
+    }
+    extra.evaluations += evals;
+    extra.distinct_nontrivial += seen.len() as u64;
+    extra.samples.push(json!({"clause": "native", "example": "points (3.1e8,-2.2e8,1.0e8) and the same +(3,-4,12): distance2 must be 169 within 1e-9 relative; angle(u, -2u) = +-pi; |normalize(q*(1+1e-8))| = 1"}));
+    extra.sections.insert(
+        "native_accuracy".into(),
+        json!({"cases": evals, "worst_relative_error_distance_f64": worst[0], "tolerance": 1e-9, "worst_relative_error_distance2_f32": worst[1], "tolerance_f32": 1e-4,
+               "worst_error_2d_angle_near_opposite_rad": worst[2], "tolerance_angle": 1e-11, "worst_error_normalized_length": worst[3], "tolerance_length": 1e-13}),
+    );
+}
